@@ -3,6 +3,7 @@ package main
 // Parallel (Fast) workflows: descriptor through go-binding, race/ownership, barrier, error discipline.
 
 import (
+	"os"
 	"fmt"
 	"strings"
 )
@@ -44,6 +45,12 @@ func analyzeFast(c *Check, p *Prog, name string) *wfDesc {
 		return nil
 	}
 	d.Source = sum.Params[0]
+	// a parameter object bundling what the workers share is looked through (sroa.go)
+	fm := paramObjectFields(S, sum)
+	applySROA(S, x, sum, fm)
+	if os.Getenv("VERIF_DUMP_FAST") == name {
+		fmt.Fprint(os.Stderr, sum.Dump(p))
+	}
 	gos := events(sum.Top, func(e *Event) bool { return e.Kind == "go" })
 	if len(gos) != 1 || gos[0].StaticCallee == nil || gos[0].Closure != nil {
 		c.Fail("R-ANCHOR", name+"/go", where, "expected exactly one `go <static function>(...)` site, found %d", len(gos))
@@ -69,6 +76,28 @@ func analyzeFast(c *Check, p *Prog, name string) *wfDesc {
 		c.Fail("R-ANCHOR", name+"/tables", where, "%s", msg)
 		return nil
 	}
+	// a WaitGroup / Mutex embedded by value in a per-call parameter object: its address is its identity
+	embedded := func(callee string) *Term {
+		var found *Term
+		n := 0
+		sum.Top.Events(func(e *Event, _ []*LoopS) {
+			if e.Kind == "call" && e.Callee == callee && len(e.Args) >= 1 && e.Args[0].Op == "addr" && len(e.Args[0].Args) == 2 {
+				if r := e.Args[0].Args[0]; r.K == KSym && fm[r.Sym] != nil {
+					if found != e.Args[0] {
+						n++
+					}
+					found = e.Args[0]
+				}
+			}
+		})
+		if n == 1 {
+			return found
+		}
+		return nil
+	}
+	if d.Wait == nil {
+		d.Wait = embedded("(*sync.WaitGroup).Add")
+	}
 	if d.Jobs == nil || d.Wait == nil {
 		c.Fail("R-ANCHOR", name+"/sync", where, "jobs channel or WaitGroup not found as per-call allocations")
 		return nil
@@ -76,6 +105,25 @@ func analyzeFast(c *Check, p *Prog, name string) *wfDesc {
 	// worker
 	ux := len(x.Und)
 	d.Worker = x.Summarize(d.GoEv.StaticCallee, d.GoEv.Args, nil)
+	applySROA(S, x, d.Worker, fm)
+	if d.Lock == nil {
+		// a mutex embedded by value in the per-call parameter object: one address, shared by all workers
+		var found *Term
+		n := 0
+		d.Worker.Top.Events(func(e *Event, _ []*LoopS) {
+			if e.Kind == "call" && e.Callee == "(*sync.Mutex).Lock" && len(e.Args) >= 1 && e.Args[0].Op == "addr" && len(e.Args[0].Args) == 2 {
+				if r := e.Args[0].Args[0]; r.K == KSym && fm[r.Sym] != nil {
+					if found != e.Args[0] {
+						n++
+					}
+					found = e.Args[0]
+				}
+			}
+		})
+		if n == 1 {
+			d.Lock = found
+		}
+	}
 	if len(x.Und) > ux {
 		c.Undecided("R-EXTRACT", name+"/worker", p.Pos(d.GoEv.StaticCallee.Pos()), "extractor does not cover: %s", strings.Join(x.Und[ux:], "; "))
 		return nil
